@@ -113,26 +113,26 @@ Theorem c13_instant_lexical : forall ts, (ts < 253402300800)%N -> check_lex LDat
 Proof. exact instant_is_datetime. Qed.
 Print Assumptions c13_instant_lexical.
 
-(* ---- create_name_id_mapping_response as coded never sets Status: refuted (finding C13-F1) *)
-Theorem c13_name_id_mapping_response_refuted :
-  exists entityid name_id irt sg ob o,
-    obs_ok ob /\ name_id_mapping_response entityid name_id irt sg ob = Some o
-    /\ valid live_table (CK k_samlp_NameIDMappingResponse) (to_tree live_table o) = false.
-Proof. exact name_id_mapping_response_refuted. Qed.
-Print Assumptions c13_name_id_mapping_response_refuted.
-
-Theorem c13_name_id_mapping_response_never_valid :
-  forall entityid irt ob o, ob_sig ob = None ->
-    name_id_mapping_response entityid None irt {| sg_arg := Some false; sg_should := false |} ob = Some o ->
-    valid live_table (CK k_samlp_NameIDMappingResponse) (to_tree live_table o) = false.
-Proof. exact name_id_mapping_response_invalid. Qed.
-Print Assumptions c13_name_id_mapping_response_never_valid.
-
-(* ... and with proposed_fixes/C13-1.diff (Status defaulted and passed on) it is valid for all arguments *)
-Theorem c13_name_id_mapping_response_fixed_wellformed :
+(* ---- create_name_id_mapping_response (as coded after fix 04928d2a: Status defaulted and passed on) *)
+Theorem c13_name_id_mapping_response_valid :
   forall entityid name_id irt status sg ob o,
     obs_ok ob -> opt_lexb LNCName irt = true -> opt_valid k_saml_NameID name_id = true ->
-    name_id_mapping_response_fixed entityid name_id irt status sg ob = Some o ->
+    name_id_mapping_response entityid name_id irt status sg ob = Some o ->
     valid live_table (CK k_samlp_NameIDMappingResponse) (to_tree live_table o) = true.
-Proof. exact name_id_mapping_response_fixed_valid. Qed.
-Print Assumptions c13_name_id_mapping_response_fixed_wellformed.
+Proof. exact name_id_mapping_response_valid. Qed.
+Print Assumptions c13_name_id_mapping_response_valid.
+
+(* ... the pinned snapshot's builder never set Status: refuted (finding C13-F1, repaired by 04928d2a) *)
+Theorem c13_name_id_mapping_response_v0_refuted :
+  exists entityid name_id irt sg ob o,
+    obs_ok ob /\ name_id_mapping_response_v0 entityid name_id irt sg ob = Some o
+    /\ valid live_table (CK k_samlp_NameIDMappingResponse) (to_tree live_table o) = false.
+Proof. exact name_id_mapping_response_v0_refuted. Qed.
+Print Assumptions c13_name_id_mapping_response_v0_refuted.
+
+Theorem c13_name_id_mapping_response_v0_never_valid :
+  forall entityid irt ob o, ob_sig ob = None ->
+    name_id_mapping_response_v0 entityid None irt {| sg_arg := Some false; sg_should := false |} ob = Some o ->
+    valid live_table (CK k_samlp_NameIDMappingResponse) (to_tree live_table o) = false.
+Proof. exact name_id_mapping_response_v0_invalid. Qed.
+Print Assumptions c13_name_id_mapping_response_v0_never_valid.
